@@ -14,7 +14,10 @@ use std::future::Future;
 use std::marker::PhantomData;
 use std::pin::Pin;
 use std::task::{Context, Poll};
+#[cfg(not(all(excsn_fibre_verif, excsn_fibre_verif_shuttle)))]
 use std::time::{Duration, Instant};
+#[cfg(all(excsn_fibre_verif, excsn_fibre_verif_shuttle))]
+use {crate::internal::sync::Instant, std::time::Duration};
 
 use crate::internal::sync::{thread, Arc, AtomicBool, Ordering};
 
